@@ -45,11 +45,12 @@ PROPS = {
              "negative and over-capacity read sizes; 8% of histories may contain rewinding discards (the known finding) and 8% are directed: writes of more than half the ring each followed by a read of everything, "
              "reads past a stride boundary, a discard back onto the boundary, then a write of the true room plus 1..5 bytes and a read of everything — after a "
              "coherent backwards move (fewer than cap bytes re-exposed, theorem discard_spec_coherent) the oracle keeps judging from the new position, so a "
-             "different failure later in the history is still reported under its own signature; in addition 3 (quick) / 10 per job (thorough) LARGE rings of 4..9 MB (production Abaco rings are 256 MB) with reader backlogs beyond 4 MiB and chunk sizes that divide no power of two: bytes come from a fixed recurrence, writes are reported as start/length/accepted and reads as length + 32-bit polynomial hash, the oracle regenerates the accepted stream and judges FIFO content by hash and lengths by the length-level model `L.*` (theorems Props/C18Len: the projection of the full model); a panic inside an "
+             "different failure later in the history is still reported under its own signature; in addition 3 (quick) / 10 per job (thorough) LARGE rings of 4..9 MB (production Abaco rings are 256 MB) with reader backlogs beyond 4 MiB and chunk sizes that divide no power of two: bytes come from a fixed recurrence, writes are reported as start/length/accepted and reads as length + 32-bit polynomial hash, the oracle regenerates the accepted stream and judges FIFO content by hash and lengths by the length-level model `L.*` (theorems Props/C18Len: the projection of the full model); RING -> PACKETS (abaco.go, the glue to the ingest): 150 quick / 3000 per job thorough `pad` cases run the real packets.ReadPacketPlusPad loop on streams of real padded packets with strides 1..8192 (wrong / short padding, truncation, junk tails) and compare every reader position, packet and the final error with Model/RingPackets.lean; 12 / 150 `rpk` cases run the real NewAbacoRing + AbacoRing.start + ReadAllPackets on a shared-memory ring that a producer fills with padded real packets (stale slots before start, packets of up to exactly one slot, wraps; 25% dirty streams with unpadded writes): on clean streams the packets handed out must be a prefix of the packets written whole (`C18:ring-packets-not-fifo / -error / -lost`, theorem ring_packets_fifo), all cases are compared with the model packet for packet; a panic inside an "
              "operation is an observed output; after every discard BytesReadable tells where the real read position landed. Chunk size / stride 0 "
              "is excluded (the Go code divides by zero: outside the statement's domain). Non-trivial = the logical stream wrapped around the "
              "end of the buffer at least once; distinct by input line.",
         nontrivial=["wrap"],
+        lean_files=["C18", "RingPackets", "C18Len"],
         jobs=seeds(1, 6),
         trusted_base=["uint64 pointers modelled as Nat (guard < 2^64)", "mmap / POSIX shm; single-threaded use of the two handles"],
         assumptions=["writer and reader are not concurrent in the correspondence run (the property is about op sequences)"],
